@@ -92,6 +92,14 @@ class C14(Prop):
             else:
                 toks.insert(i, rng.choice(TOKENS))
             return ' '.join(toks)
+        if r < 0.5:
+            # a field reference on an identifier (x.val, out.a.b): derivable; on a float variable there is no such
+            # field, which rtamt may accept lazily or refuse with RTAMTException - never with another exception
+            import re
+            ids = [m for m in re.finditer(r'\b(x|y|z|out)\b(?!\.)', t)]
+            if ids:
+                m = rng.choice(ids)
+                return t[:m.end()] + rng.choice(['.val', '.real', '.a.b', '.numer', '.x']) + t[m.end():]
         if r < 0.6:
             i = rng.randrange(len(t) + 1)
             return t[:i] + rng.choice(CHARS) + t[i:]
@@ -117,7 +125,8 @@ class C14(Prop):
             t = rng.choice(['', ' ', ';', '\n', '// only a comment', '/* c */', ';;', '()', '[0,1]', 'x', 'out =', '= x;',
                             'x unless y', 'x W y;', 'always[0,1]', 'G[0:1s] x', '1', '-1', '- - 1', 'x;y', 'x; y;',
                             'a = x; b = a and y; out = b or a;', 'always[0,kk] x', 'always[1,0] x', 'once[2s,1000ms] x',
-                            'once[1001ms,1s] x'])
+                            'once[1001ms,1s] x', 'out = (x.val >= 1)', 'x.val >= 1', 'out.val = (x >= 1)',
+                            'float x\nout = (x.numer >= 1)', 'out = ((y.a.b <= 2) and (x.real >= 0))'])
             return {'type': 'parse', 'text': t, 'declared': ['x', 'y'], 'mutated': True, 'again': rng.choice([0, 1, 2])}
         t = self.valid_text(rng)
         mutated = rng.random() < 0.8
